@@ -4,6 +4,7 @@
 #define TETL_RATIO_SUBTRACT_HPP
 
 #include <etl/_ratio/ratio.hpp>
+#include <etl/_ratio/ratio_add.hpp>
 
 namespace etl {
 
@@ -12,7 +13,7 @@ namespace etl {
 /// specializations R1 and R2.
 /// \ingroup ratio
 template <typename R1, typename R2>
-using ratio_subtract = typename ratio<R1::num * R2::den - R2::num * R1::den, R1::den * R2::den>::type;
+using ratio_subtract = typename detail::ratio_add_type<R1, ratio<-R2::num, R2::den>>::type;
 
 } // namespace etl
 
